@@ -83,6 +83,11 @@ func looseNS(v, san string) bool {
 	return false
 }
 
+// looseJWTPrefix switches a `prefix*` requestPrincipals value to the reading that describes today's
+// generated matcher (issuer = text before the value's last '/', exactly; subject prefix after it);
+// only used to classify a disagreement.
+var looseJWTPrefix bool
+
 func tdForm(v, td string) bool {
 	if v == "*" {
 		return true
@@ -287,7 +292,15 @@ func specAtom(a attrKind, pns, key, v string, r *request) bool {
 	case aReqPrincipal:
 		iss, ok1 := r.claim("iss")
 		sub, ok2 := r.claim("sub")
-		return ok1 && ok2 && !iss.isList && !sub.isList && strForm(v, iss.s+"/"+sub.s)
+		if !(ok1 && ok2 && !iss.isList && !sub.isList && iss.s != "" && sub.s != "") {
+			return false // request.auth.principal = <iss>/<sub>, defined when both claims are non-empty strings
+		}
+		if looseJWTPrefix && !strings.HasPrefix(v, "*") && strings.HasSuffix(v, "*") && v != "*" {
+			if i := strings.LastIndex(v, "/"); i >= 0 {
+				return iss.s == v[:i] && strings.HasPrefix(sub.s, strings.TrimSuffix(v[i+1:], "*"))
+			}
+		}
+		return strForm(v, iss.s+"/"+sub.s)
 	case aAudiences:
 		x, ok := r.claim("aud")
 		return mvalForm(v, x, ok)
@@ -326,7 +339,49 @@ func specAtom(a attrKind, pns, key, v string, r *request) bool {
 	return false
 }
 
+// specBundle: the trust domain bundle of the mesh (local trust domain first) the statement is
+// evaluated for. A principal value <td>/ns/<ns>/sa/<sa> whose trust domain is in the bundle (or is the
+// conventional cluster.local) denotes that identity in every trust domain of the bundle; a
+// trustDomains value that is in the bundle denotes all of them.
+var specBundle = []string{"cluster.local"}
+
+func inBundle(td string) bool {
+	for _, t := range specBundle {
+		if t == td {
+			return true
+		}
+	}
+	return false
+}
+
+func aliasValues(a attrKind, vs []string) []string {
+	if a != aSrcPrincipal && a != aSrcTD {
+		return vs
+	}
+	var out []string
+	for _, v := range vs {
+		if a == aSrcTD {
+			if inBundle(v) {
+				out = append(out, specBundle...)
+			} else {
+				out = append(out, v)
+			}
+			continue
+		}
+		p := strings.Split(v, "/")
+		if len(p) == 5 && p[0] != "*" && (inBundle(p[0]) || p[0] == "cluster.local") {
+			for _, t := range specBundle {
+				out = append(out, t+"/"+strings.Join(p[1:], "/"))
+			}
+		} else {
+			out = append(out, v)
+		}
+	}
+	return out
+}
+
 func specField(a attrKind, pns, key string, values, notValues []string, r *request) bool {
+	values, notValues = aliasValues(a, values), aliasValues(a, notValues)
 	pos := len(values) == 0
 	for _, v := range values {
 		if specAtom(a, pns, key, v, r) {
@@ -426,6 +481,7 @@ func (s *sut) applies(p *model.AuthorizationPolicy) bool {
 }
 
 func specDecision(s *sut, r *request) bool {
+	specBundle = s.bundle
 	allowExists, allowMatch := false, false
 	for i := range s.policies {
 		p := &s.policies[i]
